@@ -270,6 +270,28 @@ structure Proposal (α : Type) where
   target : Nat
   boundingRate : α
 
+/-- the part of `send_event_time` after the walker, the index of the bound (`sel` picks the upper or the
+negated lower bound) and the absolute charge factor `cf'` have been chosen -/
+def sendCore (o : Ops α) (h : Handler α) (dir : Nat) (speed : α) (active : Nat) (walker : Table α)
+    (sel : α × α → α) (cf' : α) (ts : Time α) (k : Nat) (x e : α) : Except Err (Proposal α) :=
+  -- `total_rate = walker.total_rate * charge_factor`
+  let totalRate := walker.total * cf'
+  -- `relative_cell = walker.sample_cell()`
+  match sampleCell walker k x with
+  | .error er => .error er
+  | .ok j =>
+    -- `self._bounding_event_rate = self._derivative_bounds[relative_cell][direction][index] * charge_factor`
+    let rate := sel ((h.bounds[j]!)[dir]!) * cf'
+    if !(decide (o.ofInt 0 < rate)) then .error .assertion else
+    -- `target_cell = self._cells.translate(active_cell, relative_cell)`
+    match translate o h.grid active h.domain[j]! with
+    | .error er => .error er
+    | .ok target =>
+      -- `time_displacement = random.expovariate(setting.beta) / (total_rate * speed)`
+      let denom := totalRate * speed
+      if denom == o.ofInt 0 then .error .zeroDivision else
+      .ok ⟨Time.add o ts (e / denom), target, rate⟩
+
 /-- `CellVetoEventHandler.send_event_time`.  `vel`: velocity of the active leaf unit; `cf`: the value of
 `estimator.charge_correction_factor(...)`; `pos`: position of the unit on the cell level; `ts`: time stamp
 of the active leaf unit; `k`, `x`: the two draws of `sample_cell`; `e`: the value of
@@ -284,24 +306,15 @@ def sendEventTime (o : Ops α) (h : Handler α) (vel : List α) (cf : α) (pos :
     match posToCell o h.grid pos with
     | .error er => .error er
     | .ok active =>
-      let up := decide (o.ofInt 0 < cf)
-      let cf' := if up then cf else cf * o.ofInt (-1)
-      match (if up then h.upper[dir]? else h.lower[dir]?) with
-      | none => .error .index
-      | some walker =>
-        let totalRate := walker.total * cf'
-        match sampleCell walker k x with
-        | .error er => .error er
-        | .ok j =>
-          let bd := (h.bounds[j]!)[dir]!
-          let rate := (if up then bd.1 else bd.2) * cf'
-          if !(decide (o.ofInt 0 < rate)) then .error .assertion else
-          match translate o h.grid active h.domain[j]! with
-          | .error er => .error er
-          | .ok target =>
-            let denom := totalRate * speed
-            if denom == o.ofInt 0 then .error .zeroDivision else
-            .ok ⟨Time.add o ts (e / denom), target, rate⟩
+      if o.ofInt 0 < cf then
+        match h.upper[dir]? with
+        | none => .error .index
+        | some walker => sendCore o h dir speed active walker (·.1) cf ts k x e
+      else
+        -- `charge_factor *= -1.0`
+        match h.lower[dir]? with
+        | none => .error .index
+        | some walker => sendCore o h dir speed active walker (·.2) (cf * o.ofInt (-1)) ts k x e
   | _ => .error .assertion
 end
 
